@@ -901,7 +901,9 @@ def i_SHR(i, fmap):
     W = 0
     if REX:
         W = REX[0]
-    mask = 0x3F if W == 1 else 0x1F
+    # 6 bits of count are used only for 64-bit operands (REX.W has no
+    # effect on the count of a byte operation)
+    mask = 0x3F if (W == 1 and i.operands[0].size == 64) else 0x1F
     op1 = i.operands[0]
     count = fmap(i.operands[1] & mask)
     a = fmap(op1)
@@ -937,7 +939,9 @@ def i_SAR(i, fmap):
     W = 0
     if REX:
         W = REX[0]
-    mask = 0x3F if W == 1 else 0x1F
+    # 6 bits of count are used only for 64-bit operands (REX.W has no
+    # effect on the count of a byte operation)
+    mask = 0x3F if (W == 1 and i.operands[0].size == 64) else 0x1F
     op1 = i.operands[0]
     count = fmap(i.operands[1] & mask)
     a = fmap(op1)
@@ -973,7 +977,9 @@ def i_SHL(i, fmap):
     W = 0
     if REX:
         W = REX[0]
-    mask = 0x3F if W == 1 else 0x1F
+    # 6 bits of count are used only for 64-bit operands (REX.W has no
+    # effect on the count of a byte operation)
+    mask = 0x3F if (W == 1 and i.operands[0].size == 64) else 0x1F
     op1 = i.operands[0]
     count = fmap(i.operands[1] & mask)
     a = fmap(op1)
@@ -1013,7 +1019,9 @@ def i_ROL(i, fmap):
     W = 0
     if REX:
         W = REX[0]
-    mask = 0x3F if W == 1 else 0x1F
+    # 6 bits of count are used only for 64-bit operands (REX.W has no
+    # effect on the count of a byte operation)
+    mask = 0x3F if (W == 1 and i.operands[0].size == 64) else 0x1F
     op1 = i.operands[0]
     size = op1.size
     count = fmap(i.operands[1] & mask) % size
@@ -1045,7 +1053,9 @@ def i_ROR(i, fmap):
     W = 0
     if REX:
         W = REX[0]
-    mask = 0x3F if W == 1 else 0x1F
+    # 6 bits of count are used only for 64-bit operands (REX.W has no
+    # effect on the count of a byte operation)
+    mask = 0x3F if (W == 1 and i.operands[0].size == 64) else 0x1F
     op1 = i.operands[0]
     size = op1.size
     count = fmap(i.operands[1] & mask) % size
@@ -1076,7 +1086,9 @@ def i_RCL(i, fmap):
     W = 0
     if REX:
         W = REX[0]
-    mask = 0x3F if W == 1 else 0x1F
+    # 6 bits of count are used only for 64-bit operands (REX.W has no
+    # effect on the count of a byte operation)
+    mask = 0x3F if (W == 1 and i.operands[0].size == 64) else 0x1F
     op1 = i.operands[0]
     size = op1.size
     if size < 32:
@@ -1110,7 +1122,9 @@ def i_RCR(i, fmap):
     W = 0
     if REX:
         W = REX[0]
-    mask = 0x3F if W == 1 else 0x1F
+    # 6 bits of count are used only for 64-bit operands (REX.W has no
+    # effect on the count of a byte operation)
+    mask = 0x3F if (W == 1 and i.operands[0].size == 64) else 0x1F
     op1 = i.operands[0]
     size = op1.size
     if size < 32:
